@@ -40,7 +40,7 @@ mutual
 /-- the statements `codegen_correct` covers, by level: always F0 (`cgSimple`) and if / elseif / else with any headers, `not`,
 empty blocks (F1); from level 2 on `forever` / `while` / `for` with `continue` and `break_loop` (F2; the init and increment
 statements of `for` are F0 statements); from level 3 on `switch` with `case` / `default` / `break`, fall-through and
-cases sharing a block (F3; not: a switch without cases, a header op that ends the routine, a case block that is a single
+cases sharing a block (F3; not: a header op that ends the routine, a case block that is a single
 `break` / `continue` / `break_loop`, which `_process_block` may fold into the header jump); from level 4 on user labels,
 `jump @l` and `call @l` anywhere (F4) -/
 def cgStmt (lv : Nat) : Stmt → Bool
@@ -55,7 +55,7 @@ def cgStmt (lv : Nat) : Stmt → Bool
   | .jump _ => decide (4 ≤ lv)
   | .call _ => decide (4 ≤ lv)
   | .brk => decide (3 ≤ lv)
-  | .switch hdr cs => decide (3 ≤ lv) && nameOK hdr.name && !Beh.endsFlow hdr.name && !cs.isNil && decide (countDefaults cs ≤ 1) &&
+  | .switch hdr cs => decide (3 ≤ lv) && nameOK hdr.name && !Beh.endsFlow hdr.name && decide (countDefaults cs ≤ 1) &&
       cgCases lv hdr.name cs
   | .cont => decide (2 ≤ lv)
   | .brkLoop => decide (2 ≤ lv)
